@@ -335,30 +335,52 @@ func runC17(d *drv, r *rand.Rand, thorough bool, custom []*entities.InfoElement)
 			}
 		}
 	}
-	// a template of known elements, re-defined with an unknown element in it, then data laid out for the new definition:
-	// whatever the mode does with the new definition, the old one is not what the data is read with
-	for i := 0; i < 12; i++ {
-		old := []absv.Spec{absv.SpecOf(kFixed), {ID: 4, Len: 1}, absv.SpecOf(kFixed)}
-		unk := kinds[2+r.Intn(3)](r)
-		nw := []slot{{absv.SpecOf(kFixed), "unsigned16"}, unk, {absv.SpecOf(kVar), "string"}}
-		specs := []absv.Spec{nw[0].spec, nw[1].spec, nw[2].spec}
-		var body []byte
-		for _, sl := range nw {
-			n := sl.spec.Len
-			if n == 65535 {
-				n = r.Intn(6)
+	// a template re-defined with its unknown elements at OTHER positions (or with its first unknown element), data
+	// before and after: whatever the mode does with a definition, data is read with the definition in force
+	for i := 0; i < 16; i++ {
+		mkBody := func(sl []slot) []byte {
+			var body []byte
+			for _, x := range sl {
+				n := x.spec.Len
+				if n == 65535 {
+					n = r.Intn(6)
+				}
+				v := make([]int, n)
+				for j := range v {
+					v[j] = r.Intn(256)
+				}
+				body = append(body, absv.EncodeAbs(x.typ, x.spec.Len, v)...)
 			}
-			v := make([]int, n)
-			for j := range v {
-				v[j] = r.Intn(256)
+			return body
+		}
+		specsOf := func(sl []slot) []absv.Spec {
+			out := make([]absv.Spec, len(sl))
+			for j, x := range sl {
+				out[j] = x.spec
 			}
-			body = append(body, absv.EncodeAbs(sl.typ, sl.spec.Len, v)...)
+			return out
+		}
+		kf := slot{absv.SpecOf(kFixed), "unsigned16"}
+		kv := slot{absv.SpecOf(kVar), "string"}
+		k8 := slot{absv.Spec{ID: 4, Len: 1}, "unsigned8"}
+		u1, u2 := kinds[2+r.Intn(3)](r), kinds[2+r.Intn(3)](r)
+		var old, nw []slot
+		switch i % 4 {
+		case 0: // known only, then an unknown in the middle (same record length: data for the new definition could be read with the old one)
+			old, nw = []slot{kf, k8, kf}, []slot{kf, {absv.Spec{ID: 900 + r.Intn(50), Len: 1}, "octetArray"}, kf}
+		case 1: // the unknown element moves
+			old, nw = []slot{u1, kf, k8, kv}, []slot{kf, k8, u1, kv}
+		case 2: // unknown positions swap with known ones
+			old, nw = []slot{kf, u1, k8, u2}, []slot{u2, kf, u1, k8}
+		default: // the unknown elements go away
+			old, nw = []slot{k8, u1, u2}, []slot{k8, kf, kv}
 		}
 		for _, m := range modes {
 			s := d.open(m, "redef")
-			s.recv(tmplMsg(9, 300, old))
-			s.recv(tmplMsg(9, 300, specs))
-			s.recv(dataMsg(9, 300, body))
+			s.recv(tmplMsg(9, 300, specsOf(old)))
+			s.recv(dataMsg(9, 300, append(mkBody(old), mkBody(old)...)))
+			s.recv(tmplMsg(9, 300, specsOf(nw)))
+			s.recv(dataMsg(9, 300, append(mkBody(nw), mkBody(nw)...)))
 		}
 	}
 	// wide templates (65..80 fields): unknown elements beyond position 64
